@@ -258,6 +258,8 @@ class Ctx:
         if "exhaustive" in cov and not isinstance(cov["exhaustive"], bool):
             cov["exhaustive_scope"] = cov.pop("exhaustive")
         cov.setdefault("tlc_runs", self.tlc_runs)
+        if getattr(self, "retried_timeouts", 0):
+            cov.setdefault("builds_repeated_alone_after_watchdog", self.retried_timeouts)
         cov.setdefault("known_findings_hit", self.known_hits)
         ev = {
             "property_id": self.pid,
